@@ -274,7 +274,10 @@ type c09struct struct {
 	typ types.Type
 	f   map[string]any
 }
-type c09map struct{ m map[string]any }
+type c09map struct {
+	m map[string]any
+	w int // writes after creation (state that survives a call, see c09y.go)
+}
 type c09buf struct{ sb strings.Builder }
 type c09typed struct { // interface value whose dynamic type is a named non-struct type
 	typ types.Type
@@ -307,6 +310,8 @@ type c09vm struct {
 	brLabel string // target of a pending labelled break/continue
 	nextLbl string // label attached to the statement about to execute
 	depth   int
+	gdirty  map[types.Object]bool // package variables written by interpreted code (c09y.go)
+	keep    bool                  // keep written package state from one run to the next (history rules)
 }
 
 func newC09vm(c *Ctx, pk *packages.Package) *c09vm {
@@ -364,6 +369,9 @@ func (vm *c09vm) run(fn *types.Func, recv any, args ...any) (res []any, err stri
 		}
 	}()
 	vm.steps, vm.depth, vm.brLabel, vm.nextLbl = 0, 0, "", ""
+	if !vm.keep {
+		vm.fresh()
+	}
 	return vm.call(fn, recv, args), "", ""
 }
 
@@ -454,6 +462,9 @@ func (vm *c09vm) callClosure(cl *c09closure, args []any) []any {
 func (vm *c09vm) zero(t types.Type) any {
 	if vm.isBuf(t) {
 		return &c09buf{}
+	}
+	if z, ok := c09syncZero(t); ok {
+		return z
 	}
 	switch u := t.Underlying().(type) {
 	case *types.Basic:
@@ -979,8 +990,14 @@ func (vm *c09vm) store(fr *c09frame, lhs ast.Expr, v any, define bool) {
 			*cell = v
 			return
 		}
+		if gv, ok := obj.(*types.Var); ok && vm.ownGlobal(gv) {
+			vm.globals[gv] = v
+			vm.markDirty(gv)
+			return
+		}
 		vm.abort("assignment to non-local %s", l.Name)
 	case *ast.SelectorExpr:
+		vm.markRoot(fr, l.X)
 		base, ok := vm.eval(fr, l.X).(*c09struct)
 		if !ok || base == nil {
 			vm.abort("field store into %s", types.ExprString(l.X))
@@ -990,6 +1007,7 @@ func (vm *c09vm) store(fr *c09frame, lhs ast.Expr, v any, define bool) {
 		}
 		base.f[l.Sel.Name] = v
 	case *ast.IndexExpr:
+		vm.markRoot(fr, l.X)
 		switch b := vm.eval(fr, l.X).(type) {
 		case []any:
 			i := vm.asInt(vm.eval(fr, l.Index), l.Index)
@@ -999,6 +1017,7 @@ func (vm *c09vm) store(fr *c09frame, lhs ast.Expr, v any, define bool) {
 			b[i] = v
 		case *c09map:
 			b.m[c09mapKey(vm.eval(fr, l.Index))] = v
+			b.w++
 		default:
 			vm.abort("index store into %T", b)
 		}
@@ -3917,6 +3936,20 @@ func (e *c09env) ruleEFG() {
 		f3 = append(f3, csi('u', []int{cd, cd - 32, 102}), csi('u', []int{cd, 0, 102}), csi('u', []int{cd, 0, 102}, []int{}, []int{cd}))
 	}
 	agg("CSI u field 1 = key code", f1, "Keycode = code point")
+	// code points that become a functional key's code when the key code is narrowed (to 8, 16 or 20 bits) before the
+	// table lookup: they are ordinary code points and decode to themselves
+	var narrowed []c09Seq
+	for _, r := range c09Reference() {
+		if r.final != 'u' {
+			continue
+		}
+		for _, d := range []int{1 << 8, 1 << 16, 2 << 16, 1 << 20} {
+			if cd := r.code + d; cd <= unicode.MaxRune && !(cd >= 0xD800 && cd <= 0xDFFF) {
+				narrowed = append(narrowed, csi('u', []int{cd}))
+			}
+		}
+	}
+	agg("CSI u key codes that equal a functional key's code modulo 2^8, 2^16 or 2^20", narrowed, "Keycode = code point (no narrowing before the table lookup)")
 	agg("CSI u field 1:2 = shifted code", f2, "ShiftedCode = second sub-parameter")
 	agg("CSI u field 1:3 = base layout code", f3, "BaseLayoutCode = third sub-parameter")
 	var all []c09Seq
